@@ -1,4 +1,4 @@
 From Coq Require Import Extraction ExtrOcamlBasic NArith List.
-From C09 Require Import Model Spec Env.
+From C09 Require Import Model Spec Env Values.
 Extraction "Model.ml" step fixed_cfg old_cfg empty_store layout a_step a_init a_store a_next a_log
-  count_new count_free N.of_nat N.to_nat estep env0 atoi_code atof_code observed.
+  count_new count_free N.of_nat N.to_nat estep env0 atoi_code atof_code observed vstep vars0.
